@@ -782,3 +782,21 @@ def closed_form(expr, stmt, stop=()):
         def visit_Lambda(self, n):
             return n
     return ast.fix_missing_locations(Sub().visit(clone(expr)))
+
+
+def facts_at(stmt, stop=None):
+    """[(expression, truth)] known when control reaches `stmt`: the conjuncts of the enclosing if-tests, the negated disjuncts of
+    the else-branches and of earlier guard clauses; `not x` is reported as (x, False)."""
+    out = []
+
+    def add(e, truth):
+        while isinstance(e, ast.UnaryOp) and isinstance(e.op, ast.Not):
+            e, truth = e.operand, not truth
+        if isinstance(e, ast.BoolOp) and ((isinstance(e.op, ast.And) and truth) or (isinstance(e.op, ast.Or) and not truth)):
+            for v in e.values:
+                add(v, truth)
+        else:
+            out.append((e, truth))
+    for test, pol in guard_chain(stmt, stop=stop, implicit=True):
+        add(test, pol)
+    return out
